@@ -519,14 +519,17 @@ def gen_C16(w, tier):
             ids = (r.choice(IDS), r.choice(IDS))
             x, y = w.scalar(ps), w.scalar(ps)
             sa, sb = ("S", "S") if sym else ("A", "B")
-            sess.append(dict(ps=ps, side=sa, pw=pw, ids=ids, x=x, ops=session_script(w, r, ps, sa)))
-            sess.append(dict(ps=ps, side=sb, pw=pw, ids=ids, x=y, ops=session_script(w, r, ps, sb)))
+            # the same entropy bytes in every run of this session, sometimes with rejected first draws
+            sess.append(dict(ps=ps, side=sa, pw=pw, ids=ids, x=x, ops=session_script(w, r, ps, sa),
+                             ent=w.entropy_for(ps, x, redraws=r.choice([0, 0, 1, 2]))))
+            sess.append(dict(ps=ps, side=sb, pw=pw, ids=ids, x=y, ops=session_script(w, r, ps, sb),
+                             ent=w.entropy_for(ps, y, redraws=r.choice([0, 1]))))
         fp0 = fingerprint(w)
 
         def run(order, name, tags):
             """order: list of session indexes, one entry per op; finish needs the peer's message"""
             sc = w.scenario(name, tags)
-            sid = [sc.new(s["side"], s["ps"], s["pw"], s["ids"][0], s["ids"][1], w.entropy_for(s["ps"], s["x"])) for s in sess]
+            sid = [sc.new(s["side"], s["ps"], s["pw"], s["ids"][0], s["ids"][1], s["ent"]) for s in sess]
             pos = [0] * len(sess)
             msg = [None] * len(sess)
             outs = [[] for _ in sess]
